@@ -153,10 +153,11 @@ Proof.
     destruct (pend_h x !! cur); injection St as <- <- <-; pi_same; try discriminate;
       unfold k_next; destruct (_ <? _); auto; discriminate.
   - injection St as <- <- <-. pi_same. discriminate.
+  - destruct ctxf; injection St as <- <- <-; pi_same; discriminate.
   - destruct ctxf; injection St as <- <- <-; [pi_same; discriminate|].
-    apply W1; auto. discriminate.
-  - destruct ctxf; injection St as <- <- <-; [pi_same; discriminate|].
-    apply W1; auto. discriminate.
+    destruct (write_frame_all x [WDelH id; WDelI cur]) as (B1 & B2 & B3 & B4 & B5);
+      [apply Forall_cons; [cbn; tauto|apply Forall_cons; [cbn; tauto|constructor]]|].
+    pi_same. discriminate.
   - destruct D as (Et & Hc & Sn & Pg). rewrite (sim_pend_del T to Hlt x v cur S Hv Hc) in St.
     injection St as <- <- <-. pi_same; unfold k_next; destruct (_ <? _); auto; discriminate.
   - destruct D as (Et & Pg). unfold prog in Pg.
